@@ -198,7 +198,7 @@ def enum_fields(tier):
         for slot in SLOTS:
             L = (QUICK_L if tier == "quick" else THOROUGH_L).get(slot, 3 if tier == "quick" else 4)
             alpha = ALPHA[slot]
-            for n in range(1, L + 1):
+            for n in range(0, L + 1):  # (0: the empty string)
                 for tup in itertools.product(alpha, repeat=n):
                     i += 1
                     if i % nshards != shard:
@@ -349,7 +349,7 @@ def mutate_doc(r, doc, kind):
         for i in idx:
             if recs[i].rt == "S" and recs[i].pos[1] != "*":
                 n = len(recs[i].pos[1])
-                recs[i].tags = [t for t in recs[i].tags if t[0] != "LN"] + [("LN", "i", str(n + gen.choice(r, [-1, 1, 5]) if n > 1 else n + 1))]
+                recs[i].tags = [t for t in recs[i].tags if t[0] != "LN"] + [("LN", "i", str(gen.choice(r, [x for x in (n - 1, n + 1, n + 5, 0, 2 * n) if x != n and x >= 0])))]
                 return out(), "refuse"
         return None
     if kind == "path_count" and version == "gfa1":
